@@ -262,7 +262,7 @@ func listAll(root string) []string {
 var CaseDigest string
 
 // HangBudget bounds one simulated build.
-var HangBudget = 120 * time.Second
+var HangBudget = 60 * time.Second
 
 // Isolate makes every Exec run in a process of its own (used for replays): a divergence that
 // only exists because several builds shared one process (package-level state of the tool) is not
